@@ -295,6 +295,7 @@ func runProperty(repo, specs, prop, tier, out string) int {
 	kfs := loadKnownFindings(filepath.Join(vd, "KNOWN_FINDINGS.txt"))
 	violations := 0
 	var knownSeen []string
+	replayBudget := 4
 	for _, f := range failures {
 		known := false
 		for _, kf := range kfs {
@@ -318,11 +319,15 @@ func runProperty(repo, specs, prop, tier, out string) int {
 			qf := strings.TrimSuffix(rf, ".json") + ".smt2"
 			os.WriteFile(qf, []byte(f.bad.Query(true)), 0o644)
 			rep["query"] = qf
-			if f.bad.Status == "sat" {
-				// try to obtain a model and replay it on the real code
+			if replayBudget > 0 && !f.smoke && f.bad.X != nil {
+				// try to obtain a model and replay it on the real code (a bounded number per run)
+				replayBudget--
 				if ok, info := tryReplay(p, f.bad, rf, repo); ok {
 					suffix = ""
 					rep["replay"] = info
+					if m, isMap := info.(map[string]any); isMap {
+						rep["go_test"] = m["go_test"]
+					}
 				} else if info != nil {
 					rep["replay"] = info
 				}
